@@ -250,6 +250,23 @@ PROPS["C16"] = dict(
 )
 
 
+PROPS["C15"] = dict(
+    lean_targets=["Chihaya.Props.C15"],
+    props_files=["Chihaya/Props/C15.lean"],
+    streams=[dict(name="C15", quick=700, thorough=12000)],
+    rule="cases: the real JWT hook against a loopback JWK endpoint; RS256 tokens minted by the harness (RSA-2048) with exactly one aspect changed per case: absent "
+         "parameter, garbage, issuer bad/absent, audience bad/absent/array with and without the configured value, infohash claim wrong bit/absent/upper-case/non-string, "
+         "kid unknown/absent/non-string/naming another published key, alg none / HS256 keyed with the public key / RS512 header, signature bit flip, payload changed after "
+         "signing, exp in the past, nbf in the future, no exp/nbf, signed by an unpublished key; key-set rotations (kids re-bound, keys retired) followed by a synchronous "
+         "refresh; the harness tells the model which abstract facts hold by construction; non-trivial = every case, distinct = op lines (token facts + key set)",
+    trusted=["cryptography and serialisation are uninterpreted in the model (RSA PKCS#1 v1.5, SHA-256, JWS compact form, JSON, base64, JWK decoding in SermoDigital/jose and gojwk)",
+             "the library reads the wall clock: exp/nbf cases use margins of at least 5 s, never the edge",
+             "overlay shim harness/shims/middleware/jwt (synchronous updateKeys)",
+             "refresh concurrent with validation: operation-granularity model + source fact would be needed for the lock; data-race freedom is not proved"],
+    assumptions=["HMAC/RSA unforgeability"],
+)
+
+
 def run_gen(name, repo, lean, work, goenv):
     """regenerate lean/Chihaya/Gen/<Name>.lean from the current source"""
     tr = os.path.join(work, "tr")
@@ -304,7 +321,7 @@ def context_of(stream, ops, i):
     return list(reversed(ctx))
 
 
-STATELESS = {"benc", "vi", "cfg", "appr", "http", "udp", "httpw", "grp", "life"}  # trk.* and st.* (store) operations are stateful: context back to st.reset
+STATELESS = {"benc", "vi", "cfg", "appr", "http", "udp", "httpw", "grp", "life", "jwt"}  # trk.* and st.* (store) operations are stateful: context back to st.reset
 
 
 def oracle(pid, stream, op, impl, model):
@@ -399,5 +416,47 @@ def matches(finding, failing):
     return True
 
 
+RACETESTS = {
+    "C15": [("middleware/jwt", "TestRefreshRace")],
+    "C04": [("storage/memory", "TestVerifStoreRace")],
+}
+
+
 def extra(check):
-    pass
+    """race-detector runs of overlay-injected tests (supporting evidence for 'no data races')"""
+    import json, shutil
+    tests = RACETESTS.get(check.pid, [])
+    if not tests:
+        return
+    root = os.path.dirname(os.path.dirname(os.path.abspath(__file__)))
+    repo = os.environ.get("VERIF_REPO", "/repo")
+    if shutil.which("gcc") is None and shutil.which("cc") is None and shutil.which("clang") is None:
+        check.obligations.append(("race detector", True, "skipped: no C compiler for -race"))
+        return
+    repl = {}
+    for base, prefix in ((os.path.join(root, "harness", "shims"), "zz_verif_"), (os.path.join(root, "harness", "racetests"), "zz_verif_race_")):
+        for dp, _, fs in os.walk(base):
+            for fn in fs:
+                if fn.endswith(".go"):
+                    name = prefix + fn
+                    if fn.endswith("_test.go"):
+                        name = prefix + fn
+                    repl[os.path.join(repo, os.path.relpath(dp, base), name)] = os.path.join(dp, fn)
+    ov = os.path.join(check.work, "overlay-race.json")
+    json.dump({"Replace": repl}, open(ov, "w"))
+    env = dict(os.environ, GOFLAGS="-mod=mod", GOPROXY="off", GOSUMDB="off", GOTOOLCHAIN="local", CGO_ENABLED="1")
+    for pkg, pat in tests:
+        cmd = ["go", "test", "-race", "-tags", "verif", "-overlay", ov, "-vet=off", "-run", pat, "-count=1", "./" + pkg + "/"]
+        try:
+            p = subprocess.run(cmd, cwd=repo, env=env, stdout=subprocess.PIPE, stderr=subprocess.STDOUT, text=True, timeout=900)
+            out, rc = p.stdout, p.returncode
+        except subprocess.TimeoutExpired:
+            out, rc = "timeout", 1
+        ok = rc == 0 and "DATA RACE" not in out
+        check.obligations.append((f"race detector {pkg} {pat}", ok, out.strip()[-200:]))
+        check.checker_cmds.append("cd /repo && CGO_ENABLED=1 " + " ".join(cmd))
+        if not ok:
+            lines = [l for l in out.split("\n") if "DATA RACE" in l or l.strip().startswith(("Write at", "Previous", "Read at", "github.com/chihaya")) or "FAIL" in l]
+            check.breaks.append(dict(kind="race", what=f"go test -race {pkg} -run {pat}", detail="\n".join(lines[:30]) or out[-2000:],
+                                     failing=[dict(index=0, stream="race", op=f"go test -race -run {pat} ./{pkg}/ (overlay harness/racetests/{pkg})", impl="DATA RACE / FAIL",
+                                                   model="no data race", kind="oracle", context=[], oracle=True)]))
